@@ -72,32 +72,147 @@ func (iv *interval) narrow(rel int, c float64) {
 	}
 }
 
+// downSet is {x : x < a} (strict) or {x : x <= a}.
+type downSet struct {
+	a      float64
+	strict bool
+}
+
+// preimage of the down-set d under one monotone transform t (y = t(x)): {x : t(x) in d} is again a down-set.
+func preDown(t string, d downSet) (downSet, bool) {
+	if math.IsInf(d.a, 0) {
+		return d, true
+	}
+	// the largest integer inside d
+	n := math.Floor(d.a)
+	if d.strict && n == d.a {
+		n--
+	}
+	switch {
+	case t == "float64" || t == "int":
+		return d, true
+	case strings.HasPrefix(t, "+") || (strings.HasPrefix(t, "-") && len(t) > 1):
+		var k float64
+		if _, err := fmt.Sscanf(t, "%g", &k); err != nil {
+			return d, false
+		}
+		return downSet{d.a - k, d.strict}, true
+	case t == "ceil": // ceil(x) <= n  <=>  x <= n
+		return downSet{n, false}, true
+	case t == "floor": // floor(x) <= n  <=>  x < n+1
+		return downSet{n + 1, true}, true
+	case t == "round": // half away from zero: round(x) <= n  <=>  x < n+0.5 (n >= 0), x <= n+0.5 (n < 0)
+		return downSet{n + 0.5, n >= 0}, true
+	case t == "trunc" || strings.HasPrefix(t, "trunc-"): // trunc(x) <= n  <=>  x < n+1 (n >= 0), x <= n (n < 0)
+		if n >= 0 {
+			return downSet{n + 1, true}, true
+		}
+		return downSet{n, false}, true
+	}
+	return d, false
+}
+
+func (iv interval) nonEmpty(integral string) bool {
+	if iv.lo > iv.hi {
+		return false
+	}
+	if iv.lo == iv.hi {
+		if iv.loOpen || iv.hiOpen {
+			return false
+		}
+		// a single integer point cannot be the value of a number known to be fractional
+		return !(integral == "no" && iv.lo == math.Floor(iv.lo))
+	}
+	if integral == "no" || integral == "yes" {
+		// an open cell between two neighbouring integers holds no integer; any proper interval holds a fraction
+		if integral == "yes" {
+			lo, hi := math.Floor(iv.lo)+1, math.Ceil(iv.hi)-1
+			if !iv.loOpen && iv.lo == math.Floor(iv.lo) {
+				lo = iv.lo
+			}
+			if !iv.hiOpen && iv.hi == math.Ceil(iv.hi) {
+				hi = iv.hi
+			}
+			return lo <= hi
+		}
+	}
+	return true
+}
+
+func (iv interval) meetDown(d downSet) interval {
+	if d.a < iv.hi || (d.a == iv.hi && d.strict && !iv.hiOpen) {
+		iv.hi, iv.hiOpen = d.a, d.strict
+	}
+	return iv
+}
+
+// meetUp intersects with the complement of d: {x >= a} for a strict d, {x > a} otherwise.
+func (iv interval) meetUp(d downSet) interval {
+	open := !d.strict
+	if d.a > iv.lo || (d.a == iv.lo && open && !iv.loOpen) {
+		iv.lo, iv.loOpen = d.a, open
+	}
+	return iv
+}
+
 // rel3 decides the relation (-1,0,1) of an abstract number to a constant,
-// forking over the feasible alternatives.
+// forking over the feasible alternatives. A transformed number t_k(...t_1(x)...)+Off (every t_i monotone: rounding,
+// integer offsets, exact conversions) is decided exactly: {x : f(x) < c} and {x : f(x) <= c} are down-sets of the line
+// computed by pulling the constant back through the chain, so the cells of x are bounded by the pulled-back constants
+// (half-integers for math.Round).
 func (m *Machine) rel3(n Num, c float64) int {
 	c -= n.Off
+	plain := true
 	for _, t := range n.Tr {
-		switch t {
-		case "round", "float64", "int":
-			// compared as the value itself (exact for integral values; for fractional ones the rounding is ignored: recorded)
-			if t == "round" && !m.Integral(n.A) {
-				m.Assume("a fractional symbolic bound is compared without its math.Round (affects only --min-sized-ints with non-integral bounds)")
-			}
-		default:
-			panic(m.undecided("comparison of a transformed number (%s) with a constant", t))
+		if t != "float64" && t != "int" {
+			plain = false
 		}
 	}
 	iv := m.ivOf(n.A)
-	feas := iv.feasible(c)
+	if plain || n.A.Facts["integral"] == "yes" || n.A.Kind == "PosInt" {
+		for _, t := range n.Tr {
+			if !(t == "float64" || t == "int" || isRounding(t)) {
+				panic(m.undecided("comparison of a transformed number (%s) with a constant", t))
+			}
+		}
+		feas := iv.feasible(c)
+		if len(feas) == 0 {
+			panic(m.undecided("infeasible numeric state for %s", n.A))
+		}
+		choice := 0
+		if len(feas) > 1 {
+			choice = m.Decide(fmt.Sprintf("numcmp:%d:%v:%v", n.A.ID, c, feas), len(feas), fmt.Sprintf("%s vs %v", n.A, c))
+		}
+		rel := feas[choice]
+		iv.narrow(rel, c)
+		return rel
+	}
+	lt, le := downSet{c, true}, downSet{c, false}
+	for i := len(n.Tr) - 1; i >= 0; i-- {
+		var ok1, ok2 bool
+		lt, ok1 = preDown(n.Tr[i], lt)
+		le, ok2 = preDown(n.Tr[i], le)
+		if !ok1 || !ok2 {
+			panic(m.undecided("comparison of a transformed number (%s) with a constant", n.Tr[i]))
+		}
+	}
+	integral := n.A.Facts["integral"]
+	cand := map[int]interval{-1: iv.meetDown(lt), 0: iv.meetUp(lt).meetDown(le), 1: iv.meetUp(le)}
+	var feas []int
+	for _, r := range []int{-1, 0, 1} {
+		if cand[r].nonEmpty(integral) {
+			feas = append(feas, r)
+		}
+	}
 	if len(feas) == 0 {
 		panic(m.undecided("infeasible numeric state for %s", n.A))
 	}
 	choice := 0
 	if len(feas) > 1 {
-		choice = m.Decide(fmt.Sprintf("numcmp:%d:%v:%v", n.A.ID, c, feas), len(feas), fmt.Sprintf("%s vs %v", n.A, c))
+		choice = m.Decide(fmt.Sprintf("numcmpT:%d:%s:%v:%v", n.A.ID, strings.Join(n.Tr, ","), c, feas), len(feas), fmt.Sprintf("%s|%s vs %v", n.A, strings.Join(n.Tr, ","), c))
 	}
 	rel := feas[choice]
-	iv.narrow(rel, c)
+	*iv = cand[rel]
 	return rel
 }
 
@@ -128,6 +243,9 @@ func (m *Machine) numCmpConst(n Num, c float64, op string) (Tri, string) {
 func (m *Machine) Integral(a *Atom) bool {
 	if a.Kind == "PosInt" || a.Facts["integral"] == "yes" {
 		return true
+	}
+	if a.Facts["integral"] == "no" {
+		return false
 	}
 	return m.Decide(fmt.Sprintf("integral:%d", a.ID), 2, "integrality of "+a.String()) == 0
 }
